@@ -3,7 +3,11 @@ Nothing here is shared with gfapy or with the Coq model."""
 
 INV = {'+': '-', '-': '+'}
 OTHER = {'L': 'R', 'R': 'L'}
-COMP = {'A': 'T', 'C': 'G', 'G': 'C', 'T': 'A', 'a': 't', 'c': 'g', 'g': 'c', 't': 'a', 'N': 'N', 'n': 'n'}
+# IUPAC nucleotide codes and their complements (NC-IUB 1984): the code of the set of complemented bases
+_UP = {'A': 'T', 'C': 'G', 'G': 'C', 'T': 'A', 'R': 'Y', 'Y': 'R', 'K': 'M', 'M': 'K', 'S': 'S', 'W': 'W', 'B': 'V', 'V': 'B',
+       'D': 'H', 'H': 'D', 'N': 'N'}
+COMP = dict(_UP)
+COMP.update((a.lower(), b.lower()) for a, b in _UP.items())
 
 
 def rc(s):
